@@ -51,7 +51,9 @@ CLAIMED["C19"] = (
     "property-based testing (Hypothesis): invariants + metamorphic equivariance (scaling/translation/permutation) + parameter recovery on large generated t samples + scripted non-finite fit results for the fallback",
     "Generated data sets (d 1..8, Gaussian / heavy-tailed / skewed / contaminated, scalings over 12 decades, far translations) are fitted "
     "twice (original and transformed) and compared; well-posedness invariants are asserted on every fit; recovery of (nu, scale) is tested on "
-    "n=20000 multivariate-t samples; ModeStatistics is driven with the fit's nu replaced by nan/+-inf to test the fallback. "
+    "n=20000 multivariate-t samples; ModeStatistics is driven with the fit's nu replaced by nan/+-inf to test the fallback, and what it hands "
+    "to the kernel is checked as one object: Cholesky factor and inverse must belong to the covariance it exposes, and the whole object must be "
+    "equivariant under per-coordinate scaling (1e-6..1e6), translation and permutation (from_particles / from_global / constructor). "
     "Known finding K5 (nu is always inf) is reported, not hidden.",
     "Recovery bounds are generous asymptotic ones (25% on nu, 10% on the scale matrix); equivariance tolerance includes the rounding of the transformed inputs.",
     "DESIGN.md §2 C19",
